@@ -834,11 +834,28 @@ def sibling_curve(c):
     return d
 
 
+def affine_sibling(c, ax, bx, ay, by):
+    """the case with x -> ax*x + bx and y -> ay*y + by applied to the curve and to the expected points (indices unchanged)"""
+    d = dict(c)
+    d['points'] = [[ax * p[0] + bx, ay * p[1] + by] for p in c['points']]
+    d['expected'] = [[ax * p[0] + bx, ay * p[1] + by] for p in c['expected']]
+    ysort = sorted(p[1] for p in d['points'])
+    d['y_range'] = [ysort[-1], ysort[0]]
+    return d
+
+
+def refill_siblings(c):
+    """curves of the same SHAPE (array shapes) but another x extent / offset, another y extent / offset, another curvature"""
+    return [affine_sibling(c, 1000.0, 7.0, 1.0, 0.0), affine_sibling(c, 1.0, 0.0, 1000.0, 5.0), sibling_curve(c),
+            affine_sibling(c, 0.001, -3.0, 1.0, 0.0), affine_sibling(c, 1.0, 0.0, 0.001, 0.25), affine_sibling(c, -1.0, 0.0, -1.0, 0.0)]
+
+
 def run_interference(c):
     """In ONE process: (1) the case's own arrays are built; (2) the same call form is called with exactly one Enum / numeric
     parameter changed at a time ON THE SAME ARRAY OBJECTS; (3) every call form of the same module (the case's own first) is called on
     a sibling curve of the same shape (same knees / reduced / expected / parameters); (4) then the case's call -> tag 6;
-    (5) arrays first used for the sibling curve are refilled in place with the case's data and passed again -> tag 7."""
+    (5) for each refill sibling (x scaled x1000 and shifted, y scaled and shifted, reversed curvature, x / y shrunk x0.001, mirrored):
+    arrays first used for that sibling are refilled in place with the case's data and passed again -> one tag-7 run each."""
     m = M()
     fn = c['fn']
     build = FUNCS[fn]
@@ -879,6 +896,15 @@ def run_interference(c):
             raise
         except Exception:
             pass
+    for sb in refill_siblings(c)[:2]:          # the case's own form on a curve of another x / y extent (fresh arrays)
+        try:
+            Vg = Variant(0, False)
+            fg, ag, kwg = build(m, sb, Vg)
+            xcall(fg, *ag, **kwg)
+        except Timeout:
+            raise
+        except Exception:
+            pass
     sib = sibling_curve(c)
     mod = fn.split('.')[0]
     related = [fn] + [g for g in sorted(FUNCS) if g.split('.')[0] == mod and g != fn]
@@ -898,25 +924,33 @@ def run_interference(c):
     with empty_garbage(6):
         st, val = xcall(f, *a0, **kw0)
     r6 = _entry(6, V0.unchanged() and defaults_same(f, dsnap), st, val)
-    # (5) same objects, refilled in place
-    Vr = Variant(0, False)
-    fr, ar, kwr = build(m, sib, Vr)
-    xcall(fr, *ar, **kwr)
-    Vc = Variant(0, False)
-    fc, ac, kwc = build(m, c, Vc)
-    target = []
-    for tr_, tc in zip(Vr.tracked, Vc.tracked):
-        if tr_[0] == 'arr' and tc[0] == 'arr' and tr_[1].shape == tc[1].shape and tr_[1].dtype == tc[1].dtype:
-            tr_[1][...] = tc[1]
-            target.append(tr_[1])
-        else:
-            target.append(None)
-    ac, kwc = substitute(Vc, ac, kwc, target)
-    poison(7, [len(c['points'])])
-    with empty_garbage(7):
-        st, val = xcall(fc, *ac, **kwc)
-    r7 = _entry(7, True, st, val)
-    return [r6, r7]
+    # (5) same objects, refilled in place: once per refill sibling; the siblings differ from the case in every quantity a memo keyed on
+    # the object's identity could hold (x extent and offset, y extent and offset, curvature / extremes)
+    out7 = []
+    for rk_, sb in enumerate(refill_siblings(c)):
+        try:
+            Vr = Variant(0, False)
+            fr, ar, kwr = build(m, sb, Vr)
+            xcall(fr, *ar, **kwr)
+            Vc = Variant(0, False)
+            fc, ac, kwc = build(m, c, Vc)
+        except Timeout:
+            raise
+        except Exception:
+            continue
+        target = []
+        for tr_, tc in zip(Vr.tracked, Vc.tracked):
+            if tr_[0] == 'arr' and tc[0] == 'arr' and tr_[1].shape == tc[1].shape and tr_[1].dtype == tc[1].dtype:
+                tr_[1][...] = tc[1]
+                target.append(tr_[1])
+            else:
+                target.append(None)
+        ac, kwc = substitute(Vc, ac, kwc, target)
+        poison(7 + rk_, [len(c['points'])])
+        with empty_garbage(7 + rk_):
+            st, val = xcall(fc, *ac, **kwc)
+        out7.append(_entry(7, True, st, val))
+    return [r6] + out7
 
 
 def _entry(tag, unchanged, st, val):
